@@ -11,6 +11,7 @@ import (
 
 	"golang.org/x/tools/go/packages"
 	"golang.org/x/tools/go/ssa"
+	"golang.org/x/tools/go/types/typeutil"
 
 	"mpcverif/internal/load"
 	"mpcverif/internal/report"
@@ -127,6 +128,8 @@ type classifier struct {
 	info *types.Info
 	bad  []string
 	call []*ast.CallExpr // calls into module functions that need an effect verdict
+	// return statements in the body, and how many of them are error exits
+	returns, errReturns int
 }
 
 func (c *classifier) sortedLater(obj types.Object) bool {
@@ -272,6 +275,12 @@ func (c *classifier) walk(stmts []ast.Stmt) {
 					return true
 				})
 			}
+			c.returns++
+			if n := len(s.Results); n > 0 {
+				if tv, ok := c.info.Types[s.Results[n-1]]; ok && tv.Type != nil && tv.Type.String() == "error" && !tv.IsNil() {
+					c.errReturns++ // an error exit: no output is produced on this path
+				}
+			}
 			c.bad = append(c.bad, "return")
 		default:
 			c.bad = append(c.bad, fmt.Sprintf("statement %T", st))
@@ -366,8 +375,29 @@ func MapRanges(p *load.Program, run *report.Run, roots []*ssa.Function, frozen m
 					run.Undecided(rule, key, pos, "frozen verdict: "+err.Error())
 					continue
 				}
-				if w := globalWrites(p, callee); len(w) > 0 {
-					run.Violate(rule, key, pos, "frozen verdict no longer holds: callee chain writes package-level state", w)
+				// the frozen verdict covers the named callee only: every other effect of the body must be
+				// order-insensitive by the ordinary classification
+				var rest []string
+				for _, b := range c.bad {
+					if b == "return" && c.returns == c.errReturns {
+						continue // only error exits leave the loop early: which error is reported first is not an output of a successful compilation
+					}
+					rest = append(rest, b)
+				}
+				for _, cl := range c.call {
+					if obj := typeutil.Callee(c.info, cl); obj != nil && callee.Object() != nil && obj == callee.Object() {
+						continue
+					}
+					rest = append(rest, "calls "+types.ExprString(cl.Fun))
+				}
+				if len(rest) > 0 {
+					run.Violate(rule, key, pos, "iteration order of the map reaches order-sensitive effects besides the frozen callee: "+strings.Join(rest, "; "), nil)
+					continue
+				}
+				w := globalWrites(p, callee)
+				w = append(w, receiverFieldStores(p, callee)...)
+				if len(w) > 0 {
+					run.Violate(rule, key, pos, "frozen verdict no longer holds: callee chain writes package-level state or appends to a field of its receiver", w)
 				} else {
 					run.OK(rule, key, pos, "frozen: "+fz.Reason)
 				}
@@ -381,6 +411,44 @@ func MapRanges(p *load.Program, run *report.Run, roots []*ssa.Function, frozen m
 			run.Violate(rule, key, pos, "iteration order of the map reaches order-sensitive effects: "+strings.Join(why, "; "), nil)
 		}
 	}
+}
+
+// receiverFieldStores lists stores into fields of the callee's receiver type in
+// functions reachable from f (map updates are keyed and are not stores).
+func receiverFieldStores(p *load.Program, f *ssa.Function) []string {
+	var out []string
+	if f.Signature.Recv() == nil {
+		return nil
+	}
+	recvT := f.Signature.Recv().Type()
+	for fn := range p.Reachable(f) {
+		if !inScope(fn) {
+			continue
+		}
+		for _, b := range fn.Blocks {
+			for _, ins := range b.Instrs {
+				st, ok := ins.(*ssa.Store)
+				if !ok {
+					continue
+				}
+				// an append into a field of the receiver records the order of the calls
+				if fa, ok := st.Addr.(*ssa.FieldAddr); ok && types.Identical(fa.X.Type(), recvT) && isAppend(st.Val) {
+					out = append(out, fn.RelString(nil)+" appends to a field of "+recvT.String()+" at "+p.Rel(st.Pos()))
+				}
+			}
+		}
+	}
+	sort.Strings(out)
+	return out
+}
+
+func isAppend(v ssa.Value) bool {
+	if c, ok := v.(*ssa.Call); ok {
+		if b, ok := c.Call.Value.(*ssa.Builtin); ok && b.Name() == "append" {
+			return true
+		}
+	}
+	return false
 }
 
 // globalWrites lists stores to package-level variables in functions reachable from f.
